@@ -2,22 +2,269 @@ import PV.Prog.Parse
 import PV.C11.Model
 import PV.C11.Fragment
 /-
-  PV.Prog.Render — a statement printer in canonical layout (one statement per line, one INDENT / DEDENT pair per
-  block, `else:` blocks but no `elif`) for the FRAGMENT of programs for which the round trip
-  `parseProgram (render m) = some m` is proved (`PV.Prog.render_parse_partial`):
+  PV.Prog.Render — a printer for whole programs in canonical layout, and the FRAGMENT of programs for which the
+  round trip `parseProgram (render m) = some m` is proved (`PV.Prog.render_parse_partial`).
 
-    Pass, Break, Continue, Expr e, Return (with and without value), If / While with non-empty bodies and optional
-    `else` blocks — nested arbitrarily — over the expression fragment `PV.Expr.InFragment` of C11; Module,
-    Interactive and Expression mode.
+  Layout: one statement per logical line; every suite is a block (`:` NEWLINE INDENT statements DEDENT); `else` /
+  `except` / `finally` clauses as blocks; no `elif` (an `If` whose `orelse` is one `If` is printed `else:` + nested
+  block, which the parser maps back to the same tree); decorators one per line.
 
-  Expressions are rendered as the model of `ast/src/unparse.rs` renders them (`PV.C11.unparse`, token level).
+  Expressions are printed by the model of `ast/src/unparse.rs` (`PV.C11.unparse`, token level) at the precedence
+  level of the grammar position they stand in:
+
+    * level 1 (`Test`): conditions, values, annotations, defaults, bases, decorators, guards, context expressions, the
+      elements of assignment / return / `for … in` lists — so a tuple or a named expression in such a position is
+      written in parentheses and a `yield` as the parenthesised atom `(yield …)`;
+    * level 6 (`Expression`): `del` targets, `for` targets, `with … as` targets;
+    * a `Starred` element (`*a = b`, `return *a`, `for *a in b`, `del *a`) is `*` followed by its operand at level 6.
+
+  With-items are always printed in the parenthesised form `with (a as b, c):` — the one form the grammar maps back to
+  the same item list for every list (a single unparenthesised tuple item would be read as several items).
+  Patterns: sequences in brackets, `as` / `|` patterns parenthesised where a closed pattern is required.
+
   Core Lean only.
 -/
 namespace PV.Prog
 open PV.Expr PV.C11
 
+/-! ## expressions -/
+
+/-- tokens of an expression rendered at precedence level `lvl` -/
+def rx (lvl : Nat) (e : Expr) : List Tok := toks (unparse (fun _ => true) e lvl)
+
 /-- tokens of an expression in the rendering of `format!("{}", e)` (PV.C11.Model) -/
 def renderExpr (e : Expr) : List Tok := toks (unparse (fun _ => true) e 1)
+
+/-- items separated by `sep`, no trailing separator -/
+def sepBy (sep : Tok) : List (List Tok) → List Tok
+  | [] => []
+  | [x] => x
+  | x :: y :: r => x ++ sep :: sepBy sep (y :: r)
+
+def tComma : Tok := .op .comma
+def tColon : Tok := .op .colon
+def tAssign : Tok := .op .assign
+
+/-- spelling of an augmented-assignment operator (inverse of `augOf`) -/
+def augText : BinOp → List Nat
+  | .add => [43, 61] | .sub => [45, 61] | .mult => [42, 61] | .matMult => [64, 61] | .div => [47, 61]
+  | .mod => [37, 61] | .bitAnd => [38, 61] | .bitOr => [124, 61] | .bitXor => [94, 61]
+  | .lShift => [60, 60, 61] | .rShift => [62, 62, 61] | .pow => [42, 42, 61] | .floorDiv => [47, 47, 61]
+
+/-- the token `+=`, `-=`, … -/
+def tAug (o : BinOp) : Tok := .op (.other (augText o))
+
+/-- `":" X` -/
+def optColon : Option Expr → List Tok
+  | none => []
+  | some e => tColon :: rx 1 e
+
+/-- `"=" X` -/
+def optAssign : Option Expr → List Tok
+  | none => []
+  | some e => tAssign :: rx 1 e
+
+/-! ## names -/
+
+/-- a dotted name (`a.b.c`, stored as one identifier with dots) as NAME and `.` tokens -/
+def dottedGo (cur : Ident) : List Nat → List Tok
+  | [] => [.name cur]
+  | c :: r => if c = 46 then .name cur :: .op .dot :: dottedGo [] r else dottedGo (cur ++ [c]) r
+
+def dottedToks (nm : Ident) : List Tok := dottedGo [] nm
+
+/-- `("as" Identifier)?` -/
+def asToks : Option Ident → List Tok
+  | none => []
+  | some n => [HK.tok .as, .name n]
+
+/-- `import` alias: dotted name -/
+def renderAliasDotted (a : Alias) : List Tok := dottedToks a.name ++ asToks a.asname
+
+/-- `from … import` alias: one identifier -/
+def renderAliasPlain (a : Alias) : List Tok := .name a.name :: asToks a.asname
+
+/-- the names of `from … import`: `*`, or aliases (no parentheses) -/
+def renderFromNames : List Alias → List Tok
+  | [⟨[42], none⟩] => [.op .star]
+  | names => sepBy tComma (names.map renderAliasPlain)
+
+/-- the dots of a relative import: `...` tokens as the lexer cuts them (maximal munch), then `.` tokens -/
+def levelToks (lvl : Nat) : List Tok :=
+  List.replicate (lvl / 3) (.op .ellipsis) ++ List.replicate (lvl % 3) (.op .dot)
+
+def renderNames (ns : List Ident) : List Tok := sepBy tComma (ns.map fun n => [Tok.name n])
+
+/-! ## type parameters, decorators, parameters, call arguments -/
+
+def renderTypeParam : TypeParam → List Tok
+  | .typeVar n b => .name n :: optColon b
+  | .typeVarTuple n => [.op .star, .name n]
+  | .paramSpec n => [.op .dstar, .name n]
+
+/-- `TypeParamList?` -/
+def renderTypeParams : List TypeParam → List Tok
+  | [] => []
+  | tps => .op .lsqb :: (sepBy tComma (tps.map renderTypeParam) ++ [.op .rsqb])
+
+/-- `Decorator*`: one per line -/
+def renderDecorators : List Expr → List Tok
+  | [] => []
+  | d :: ds => .op .at :: (rx 1 d ++ tNewline :: renderDecorators ds)
+
+/-- `NAME (":" annotation)?` -/
+def renderArg (a : Arg) : List Tok := .name a.name :: optColon a.annotation
+
+/-- `NAME (":" annotation)? ("=" default)?` -/
+def renderParam (p : ArgWithDefault) : List Tok := renderArg p.arg ++ optAssign p.default
+
+/-- the comma-separated items of a parameter list: positional-only parameters, `/`, parameters, `*args` or the bare
+    `*` (written iff keyword-only parameters follow), keyword-only parameters, `**kwargs` -/
+def paramItems (a : Arguments) : List (List Tok) :=
+  a.posonly.map renderParam ++ (if a.posonly.isEmpty then [] else [[Tok.op .slash]]) ++ a.args.map renderParam ++
+  (match a.vararg with
+   | some v => [.op .star :: renderArg v]
+   | none => if a.kwonly.isEmpty then [] else [[Tok.op .star]]) ++
+  a.kwonly.map renderParam ++
+  (match a.kwarg with
+   | some k => [.op .dstar :: renderArg k]
+   | none => [])
+
+/-- `"(" ParameterList? ")"` -/
+def renderParameters (a : Arguments) : List Tok := .op .lpar :: (sepBy tComma (paramItems a) ++ [.op .rpar])
+
+/-- `ArgumentList` of a class definition, as the unparser writes the arguments of a call -/
+def renderCallArgs (as : List Expr) (ks : List Keyword) : List Tok :=
+  toks (unparseSeq (fun _ => true) as 1 true) ++ toks (unparseKeywords (fun _ => true) ks as.isEmpty)
+
+/-- `("(" ArgumentList ")")?` of a class definition: nothing when there are no arguments -/
+def renderClassArgs (as : List Expr) (ks : List Keyword) : List Tok :=
+  if as.isEmpty && ks.isEmpty then [] else .op .lpar :: (renderCallArgs as ks ++ [.op .rpar])
+
+/-! ## with items -/
+
+/-- `Test ("as" Expression)?` -/
+def renderWithItem (it : WithItem) : List Tok :=
+  rx 1 it.contextExpr ++
+    (match it.optionalVars with
+     | some v => HK.tok .as :: rx 6 v
+     | none => [])
+
+/-- `"(" items ")"` -/
+def renderWithItems (items : List WithItem) : List Tok :=
+  .op .lpar :: (sepBy tComma (items.map renderWithItem) ++ [.op .rpar])
+
+/-! ## patterns -/
+
+/-- `MatchName ("." Identifier)*` -/
+def attrToks : Expr → List Tok
+  | .name n => [.name n]
+  | .attribute v a => attrToks v ++ [.op .dot, .name a]
+  | _ => []
+
+/-- a signed number: `ConstantAtom` or `"-" ConstantAtom`; also the other constants (one token) -/
+def numToks : Expr → List Tok
+  | .const c => [constTok c]
+  | .unaryOp .uSub (.const c) => [.op .minus, constTok c]
+  | _ => []
+
+/-- the expression of a `MatchValue`, a mapping key or a class name -/
+def patExprToks : Expr → List Tok
+  | .binOp l .add (.const c) => numToks l ++ [.op .plus, constTok c]
+  | .binOp l .sub (.const c) => numToks l ++ [.op .minus, constTok c]
+  | .attribute v a => attrToks (.attribute v a)
+  | .name n => [.name n]
+  | e => numToks e
+
+def parenIf (b : Bool) (ts : List Tok) : List Tok := if b then .op .lpar :: (ts ++ [.op .rpar]) else ts
+
+/-- capture name / wildcard -/
+def patNameTok : Option Ident → Tok
+  | none => .name [95]
+  | some n => .name n
+
+/-- `key ":" pattern` -/
+def mapItemToks (k : Expr) (p : List Tok) : List Tok := patExprToks k ++ tColon :: p
+
+/-- `name "=" pattern` -/
+def kwItemToks (k : Ident) (p : List Tok) : List Tok := .name k :: tAssign :: p
+
+/-- `**rest` of a mapping pattern, as one more item -/
+def restItem : Option Ident → List (List Tok)
+  | none => []
+  | some n => [[.op .dstar, .name n]]
+
+mutual
+/-- a pattern at grammar level `lvl`: 0 = `Pattern` (an `as` pattern may stand bare), 1 = `OrPattern` (alternatives
+    may stand bare), 2 = `ClosedPattern` -/
+def renderPat : Pattern → Nat → List Tok
+  | .matchValue e, _ => patExprToks e
+  | .matchSingleton c, _ => [constTok c]
+  | .matchSequence ps, _ => .op .lsqb :: (sepBy tComma (renderPatList ps 0) ++ [.op .rsqb])
+  | .matchMapping ks ps rest, _ =>
+    .op .lbrace :: (sepBy tComma (List.zipWith mapItemToks ks (renderPatList ps 0) ++ restItem rest) ++ [.op .rbrace])
+  | .matchClass cls ps ka kp, _ =>
+    patExprToks cls ++ .op .lpar ::
+      (sepBy tComma (renderPatList ps 0 ++ List.zipWith kwItemToks ka (renderPatList kp 0)) ++ [.op .rpar])
+  | .matchStar n, _ => [.op .star, patNameTok n]
+  | .matchAs none n, _ => [patNameTok n]
+  | .matchAs (some q) n, lvl => parenIf (decide (1 ≤ lvl)) (renderPat q 1 ++ [HK.tok .as, patNameTok n])
+  | .matchOr ps, lvl => parenIf (decide (2 ≤ lvl)) (sepBy (.op .bar) (renderPatList ps 2))
+/-- every pattern of a list at level `lvl` -/
+def renderPatList : List Pattern → Nat → List (List Tok)
+  | [], _ => []
+  | p :: ps, lvl => renderPat p lvl :: renderPatList ps lvl
+end
+
+/-! ## statements -/
+
+/-- `":" NEWLINE INDENT block DEDENT` -/
+def suiteToks (block : List Tok) : List Tok := tColon :: tNewline :: tIndent :: (block ++ [tDedent])
+
+/-- `("else" suite)?` -/
+def elseToks (o : List Stmt) (block : List Tok) : List Tok :=
+  if o.isEmpty then [] else .kw .else :: suiteToks block
+
+/-- `("finally" suite)?` -/
+def finallyToks (o : List Stmt) (block : List Tok) : List Tok :=
+  if o.isEmpty then [] else HK.tok .finally :: suiteToks block
+
+/-- `"except" "*"? (Test ("as" NAME)?)?` -/
+def exceptHead (star : Bool) (ty : Option Expr) (nm : Option Ident) : List Tok :=
+  HK.tok .except :: ((if star then [Tok.op .star] else []) ++
+    (match ty with
+     | some e => rx 1 e ++ asToks nm
+     | none => []))
+
+/-- `("if" NamedExpressionTest)?` -/
+def guardToks : Option Expr → List Tok
+  | none => []
+  | some g => .kw .if :: rx 1 g
+
+/-- `async` prefix -/
+def asyncToks (a : Bool) : List Tok := if a then [.kw .async] else []
+
+/-- the target of an annotated assignment: a name that is not `simple` was written in parentheses -/
+def annTargetToks (t : Expr) (simple : Bool) : List Tok :=
+  if isName t && !simple then .op .lpar :: (rx 1 t ++ [.op .rpar]) else rx 1 t
+
+/-- `name (":" "=" …)* "="` of every target -/
+def assignTargets : List Expr → List Tok
+  | [] => []
+  | t :: ts => rx 1 t ++ tAssign :: assignTargets ts
+
+def forToks (a : Bool) (t i : Expr) (body : List Tok) (o : List Stmt) (oblock : List Tok) : List Tok :=
+  asyncToks a ++ .kw .for :: (rx 6 t ++ .kw .in :: (rx 1 i ++ (suiteToks body ++ elseToks o oblock)))
+
+def withToks (a : Bool) (items : List WithItem) (body : List Tok) : List Tok :=
+  asyncToks a ++ HK.tok .with :: (renderWithItems items ++ suiteToks body)
+
+def defToks (a : Bool) (n : Ident) (args : Arguments) (body : List Tok) (decos : List Expr) (returns : Option Expr)
+    (tps : List TypeParam) : List Tok :=
+  renderDecorators decos ++ (asyncToks a ++ HK.tok .def :: .name n :: (renderTypeParams tps ++ (renderParameters args ++
+    ((match returns with
+      | some r => tArrow :: rx 1 r
+      | none => []) ++ suiteToks body))))
 
 mutual
 def renderStmt : Stmt → List Tok
@@ -27,31 +274,198 @@ def renderStmt : Stmt → List Tok
   | .expr e => renderExpr e ++ [tNewline]
   | .return none => [HK.tok .return, tNewline]
   | .return (some e) => HK.tok .return :: (renderExpr e ++ [tNewline])
-  | .if t b o => .kw .if :: (renderExpr t ++ (.op .colon :: tNewline :: tIndent :: (renderBlock b ++ (tDedent :: renderElse o))))
-  | .while t b o => HK.tok .while :: (renderExpr t ++ (.op .colon :: tNewline :: tIndent :: (renderBlock b ++ (tDedent :: renderElse o))))
-  | _ => []
+  | .delete ts => HK.tok .del :: (sepBy tComma (ts.map (rx 6)) ++ [tNewline])
+  | .assign ts v => assignTargets ts ++ (rx 1 v ++ [tNewline])
+  | .augAssign t o v => rx 1 t ++ tAug o :: (rx 1 v ++ [tNewline])
+  | .annAssign t a v s => annTargetToks t s ++ tColon :: (rx 1 a ++ (optAssign v ++ [tNewline]))
+  | .assert t m =>
+    HK.tok .assert :: (rx 1 t ++
+      ((match m with
+        | some x => tComma :: rx 1 x
+        | none => []) ++ [tNewline]))
+  | .raise none _ => [HK.tok .raise, tNewline]
+  | .raise (some e) c =>
+    HK.tok .raise :: (rx 1 e ++
+      ((match c with
+        | some x => .kw .from :: rx 1 x
+        | none => []) ++ [tNewline]))
+  | .global ns => HK.tok .global :: (renderNames ns ++ [tNewline])
+  | .nonlocal ns => HK.tok .nonlocal :: (renderNames ns ++ [tNewline])
+  | .import names => HK.tok .import :: (sepBy tComma (names.map renderAliasDotted) ++ [tNewline])
+  | .importFrom m names lvl =>
+    .kw .from :: (levelToks (lvl.getD 0) ++
+      ((match m with
+        | some nm => dottedToks nm
+        | none => []) ++ HK.tok .import :: (renderFromNames names ++ [tNewline])))
+  | .typeAlias n tps v => HK.tok .type :: (rx 1 n ++ (renderTypeParams tps ++ tAssign :: (rx 1 v ++ [tNewline])))
+  | .if t b o => .kw .if :: (renderExpr t ++ (suiteToks (renderBlock b) ++ elseToks o (renderBlock o)))
+  | .while t b o => HK.tok .while :: (renderExpr t ++ (suiteToks (renderBlock b) ++ elseToks o (renderBlock o)))
+  | .for t i b o => forToks false t i (renderBlock b) o (renderBlock o)
+  | .asyncFor t i b o => forToks true t i (renderBlock b) o (renderBlock o)
+  | .try b hs o f =>
+    HK.tok .try :: (suiteToks (renderBlock b) ++ (renderHandlers hs false ++
+      (elseToks o (renderBlock o) ++ finallyToks f (renderBlock f))))
+  | .tryStar b hs o f =>
+    HK.tok .try :: (suiteToks (renderBlock b) ++ (renderHandlers hs true ++
+      (elseToks o (renderBlock o) ++ finallyToks f (renderBlock f))))
+  | .with items b => withToks false items (renderBlock b)
+  | .asyncWith items b => withToks true items (renderBlock b)
+  | .functionDef n a b d r tp => defToks false n a (renderBlock b) d r tp
+  | .asyncFunctionDef n a b d r tp => defToks true n a (renderBlock b) d r tp
+  | .classDef n bases kws b d tp =>
+    renderDecorators d ++ HK.tok .class :: .name n :: (renderTypeParams tp ++ (renderClassArgs bases kws ++
+      suiteToks (renderBlock b)))
+  | .match subj cases =>
+    HK.tok .match :: (renderExpr subj ++ tColon :: tNewline :: tIndent :: (renderCases cases ++ [tDedent]))
 def renderBlock : List Stmt → List Tok
   | [] => []
   | s :: ss => renderStmt s ++ renderBlock ss
-def renderElse : List Stmt → List Tok
+def renderHandlers : List ExceptHandler → Bool → List Tok
+  | [], _ => []
+  | .mk ty nm b :: hs, star => exceptHead star ty nm ++ (suiteToks (renderBlock b) ++ renderHandlers hs star)
+def renderCases : List MatchCase → List Tok
   | [] => []
-  | s :: ss => .kw .else :: .op .colon :: tNewline :: tIndent :: (renderStmt s ++ (renderBlock ss ++ [tDedent]))
+  | .mk p g b :: cs => HK.tok .case :: (renderPat p 0 ++ (guardToks g ++ (suiteToks (renderBlock b) ++ renderCases cs)))
 end
+
+/-! ## the fragment -/
+
+/-- an optional expression in an element position (`"=" TestList` of an annotated assignment) -/
+def fxOptE : Option Expr → Bool
+  | none => true
+  | some e => fx .elem e
+
+def fxTParams : List TypeParam → Bool
+  | [] => true
+  | .typeVar _ b :: r => fxOpt b && fxTParams r
+  | _ :: r => fxTParams r
+
+def fxArg (a : Arg) : Bool := fxOpt a.annotation
+
+def fxParamsT : List ArgWithDefault → Bool
+  | [] => true
+  | p :: r => fxOpt p.arg.annotation && fxOpt p.default && fxParamsT r
+
+/-- a parameter list of the fragment: expressions of the fragment, and the checks the parser makes when it builds
+    the node (`validate_pos_params`, `validate_arguments`) -/
+def fxArguments (a : Arguments) : Bool :=
+  fxParamsT a.posonly && fxParamsT a.args && fxParamsT a.kwonly &&
+    (match a.vararg with | some v => fxOptE v.annotation | none => true) &&
+    (match a.kwarg with | some k => fxOpt k.annotation | none => true) &&
+    validPos (a.posonly ++ a.args) && validNames a
+
+def fxWithItems : List WithItem → Bool
+  | [] => true
+  | it :: r => fx .plain it.contextExpr && fxOpt it.optionalVars && fxWithItems r
+
+/-- `ConstantAtom` -/
+def isNumConst : Expr → Bool
+  | .const (.int _) | .const (.float _) | .const (.imag _) => true
+  | _ => false
+
+/-- `ConstantExpr`: a number or `-` number -/
+def isSignedNum : Expr → Bool
+  | .unaryOp .uSub c => isNumConst c
+  | e => isNumConst e
+
+/-- `ConstantExpr | AddOpExpr` -/
+def isConstExpr : Expr → Bool
+  | .binOp l .add r | .binOp l .sub r => isSignedNum l && isNumConst r
+  | e => isSignedNum e
+
+/-- `MatchName ("." Identifier)*` -/
+def isAttrChain : Expr → Bool
+  | .name _ => true
+  | .attribute v _ => isAttrChain v
+  | _ => false
+
+/-- a string or bytes literal (one token) -/
+def isStrLit : Expr → Bool
+  | .const (.str _ _) | .const (.bytes _) => true
+  | _ => false
+
+/-- the expression of a `MatchValue` pattern -/
+def patValueOk (e : Expr) : Bool := isConstExpr e || isStrLit e || (isAttrChain e && !isName e)
+
+/-- a `MappingKey` -/
+def mapKeyOk : Expr → Bool
+  | .const .none | .const (.bool _) => true
+  | e => patValueOk e
+
+/-- a name that is not `_` -/
+def notWild : Option Ident → Bool
+  | some n => n != [95]
+  | none => true
+
+mutual
+def inFragPat : Pattern → Bool
+  | .matchValue e => patValueOk e
+  | .matchSingleton c => (match c with | .none | .bool _ => true | _ => false)
+  | .matchSequence ps => inFragPats ps
+  | .matchMapping ks ps _ => ks.all mapKeyOk && decide (ks.length = ps.length) && inFragPats ps
+  | .matchClass cls ps ka kp => isAttrChain cls && decide (ka.length = kp.length) && inFragPats ps && inFragPats kp
+  | .matchStar n => notWild n
+  | .matchAs none n => notWild n
+  | .matchAs (some q) n => n.isSome && notWild n && inFragPat q
+  | .matchOr ps => decide (2 ≤ ps.length) && inFragPats ps
+def inFragPats : List Pattern → Bool
+  | [] => true
+  | p :: ps => inFragPat p && inFragPats ps
+end
+
+/-- `from … import` names -/
+def fromNamesOk (m : Option Ident) (names : List Alias) (lvl : Option Nat) : Bool :=
+  !names.isEmpty && (match lvl with | some l => m.isSome || decide (1 ≤ l) | none => false)
 
 mutual
 def inFragS : Stmt → Bool
   | .pass => true
   | .break => true
   | .continue => true
-  | .expr e => inFrag e
+  | .expr e => fx .elem e
   | .return none => true
-  | .return (some e) => inFrag e
-  | .if t b o => inFrag t && !b.isEmpty && inFragB b && inFragB o
-  | .while t b o => inFrag t && !b.isEmpty && inFragB b && inFragB o
-  | _ => false
+  | .return (some e) => fx .elem e
+  | .delete ts => !ts.isEmpty && fxList .elem ts
+  | .assign ts v => !ts.isEmpty && fxList .elem ts && fx .elem v
+  | .augAssign t _ v => fx .elem t && fx .elem v
+  | .annAssign t a v s => fx .plain t && fx .plain a && fxOptE v && (!s || isName t)
+  | .assert t m => fx .plain t && fxOpt m
+  | .raise none none => true
+  | .raise none (some _) => false
+  | .raise (some e) c => fx .plain e && fxOpt c
+  | .global ns => !ns.isEmpty
+  | .nonlocal ns => !ns.isEmpty
+  | .import names => !names.isEmpty
+  | .importFrom m names lvl => fromNamesOk m names lvl
+  | .typeAlias n tps v => isName n && fxTParams tps && fx .plain v
+  | .if t b o => fx .plain t && !b.isEmpty && inFragB b && inFragB o
+  | .while t b o => fx .plain t && !b.isEmpty && inFragB b && inFragB o
+  | .for t i b o => fx .elem t && fx .elem i && !b.isEmpty && inFragB b && inFragB o
+  | .asyncFor t i b o => fx .elem t && fx .elem i && !b.isEmpty && inFragB b && inFragB o
+  | .try b hs o f =>
+    !b.isEmpty && inFragB b && inFragHs hs false && inFragB o && inFragB f &&
+      (if hs.isEmpty then o.isEmpty && !f.isEmpty else true)
+  | .tryStar b hs o f => !b.isEmpty && inFragB b && !hs.isEmpty && inFragHs hs true && inFragB o && inFragB f
+  | .with items b => !items.isEmpty && fxWithItems items && !b.isEmpty && inFragB b
+  | .asyncWith items b => !items.isEmpty && fxWithItems items && !b.isEmpty && inFragB b
+  | .functionDef _ a b d r tp =>
+    fxArguments a && !b.isEmpty && inFragB b && fxList .plain d && fxOpt r && fxTParams tp
+  | .asyncFunctionDef _ a b d r tp =>
+    fxArguments a && !b.isEmpty && inFragB b && fxList .plain d && fxOpt r && fxTParams tp
+  | .classDef _ bases kws b d tp =>
+    fxList .elem bases && fxKeywords kws && kwFresh [] kws && !b.isEmpty && inFragB b && fxList .plain d && fxTParams tp
+  | .match subj cases => fx .elem subj && !cases.isEmpty && inFragCs cases
 def inFragB : List Stmt → Bool
   | [] => true
   | s :: ss => inFragS s && inFragB ss
+/-- handlers: non-empty bodies; a name needs a type; the handlers of `try*` all have a type -/
+def inFragHs : List ExceptHandler → Bool → Bool
+  | [], _ => true
+  | .mk ty nm b :: hs, star =>
+    fxOpt ty && (ty.isSome || (nm.isNone && !star)) && !b.isEmpty && inFragB b && inFragHs hs star
+def inFragCs : List MatchCase → Bool
+  | [] => true
+  | .mk p g b :: cs => inFragPat p && fxOpt g && !b.isEmpty && inFragB b && inFragCs cs
 end
 
 /-- back from the single token type to the parser's alphabet -/
@@ -78,7 +492,14 @@ def render : Mod → List PTok
 def inFragM : Mod → Bool
   | .module ss => inFragB ss
   | .interactive ss => inFragB ss
-  | .expression e => inFrag e
+  | .expression e => fx .elem e
+
+/-- **the fragment of the proved round trip, as a proposition**: all 28 statement kinds, all 8 pattern kinds,
+    parameters, with-items, type parameters and decorators over C11's extended expression fragment `InFragmentX`
+    (`fx`), with the side conditions every parser-built tree has (see design/PROG.md) -/
+def InFragmentP (m : Mod) : Prop := inFragM m = true
+
+instance (m : Mod) : Decidable (InFragmentP m) := inferInstanceAs (Decidable (_ = true))
 
 /-- the mode a tree belongs to -/
 def modeOf : Mod → Mode
